@@ -155,7 +155,9 @@ def strat_alloc(draw, tier, ends_only=False):
                 align[r] = draw(st.sampled_from([1, 2, 4, 7, 64]))
     return {"machine": m, "vertices": vertices, "reservations": reservations,
             "align": align, "vkind": draw(st.sampled_from(pr.VERTEX_KINDS)),
-            "ends_only": ends_only}
+            "ends_only": ends_only,
+            "scale": draw(st.sampled_from([1, 1, 1, 1, 1, 2 ** 54 + 1,
+                                           10 ** 18 + 9]))}
 
 
 def strat_free(tier):
@@ -166,7 +168,41 @@ def strat_ends(tier):
     return strat_alloc(tier, True)
 
 
+def _scaled(case, K):
+    """The same problem with every quantity of the non-core resources
+    multiplied by K (ranges, needs, reservations and alignments alike)."""
+    import copy
+    c = copy.deepcopy(case)
+    m = c["machine"]
+    for r in m["resources"]:
+        if r != "Cores":
+            m["resources"][r] *= K
+    for e in m["exceptions"]:
+        for r in e[2]:
+            if r != "Cores":
+                e[2][r] *= K
+    for v in c["vertices"]:
+        for r in v["needs"]:
+            if r != "Cores":
+                v["needs"][r] *= K
+    for res in c["reservations"]:
+        if res["res"] != "Cores":
+            res["start"] *= K
+            res["stop"] *= K
+    for r in c["align"]:
+        if r != "Cores":
+            c["align"][r] *= K
+    c["scale"] = 1
+    return c
+
+
 def check_alloc(case):
+    if case.get("scale", 1) != 1:
+        # quantities far beyond 2**53 (a generic resource may count bytes of
+        # a 64-bit space): integer arithmetic must stay exact
+        out = check_alloc(_scaled(case, case["scale"]))
+        out["classes"] = out.get("classes", []) + ["huge-quantities"]
+        return out
     from rig.place_and_route import allocate
     from rig.place_and_route.allocate.greedy import allocate as greedy
     from rig.place_and_route.constraints import (ReserveResourceConstraint,
